@@ -163,7 +163,7 @@ pub fn synth(spec: &FrameSpec, dict: Option<&Dict>, over_long: bool) -> SynthOut
             BlockSpec::Comp(c) => {
                 let before = content.len();
                 let lit_cap = if over_long {
-                    BLOCK_MAX
+                    (1 << 20) - 1
                 } else {
                     block_max.min(BLOCK_MAX - 512usize.saturating_add(12 * c.seqs.len()).min(BLOCK_MAX))
                 };
